@@ -43,16 +43,24 @@ def optOf {α} (f : Sexp → Option α) : Sexp → Option (Option α)
   | .atom "-" => some none
   | e => (f e).map some
 
-def attrOf4 (n t k d : Sexp) (override : Bool) : Option AttrDecl := do
-  let name ← nameOf n
-  let ty ← tyOf t
-  let kind ← kindOf k
-  let dflt ← optOf valOf d
-  pure { name := name, ty := ty, kind := kind, dflt := dflt, override := override }
+/-- trailing flags of an attribute: `o` (override => true), then `f` (final => true) or `nf` (final => false) -/
+def flagsOf : List Sexp → Option (Bool × Option Bool)
+  | [] => some (false, none)
+  | [.atom "o"] => some (true, none)
+  | [.atom "f"] => some (false, some true)
+  | [.atom "nf"] => some (false, some false)
+  | [.atom "o", .atom "f"] => some (true, some true)
+  | [.atom "o", .atom "nf"] => some (true, some false)
+  | _ => none
 
 def attrOf : Sexp → Option AttrDecl
-  | .list [n, t, k, d] => attrOf4 n t k d false
-  | .list [n, t, k, d, .atom "o"] => attrOf4 n t k d true
+  | .list (n :: t :: k :: d :: flags) => do
+    let name ← nameOf n
+    let ty ← tyOf t
+    let kind ← kindOf k
+    let dflt ← optOf valOf d
+    let (override, final) ← flagsOf flags
+    pure { name := name, ty := ty, kind := kind, dflt := dflt, override := override, final := final }
   | _ => none
 
 def eqOf : Sexp → Option EqDecl
